@@ -150,7 +150,11 @@ static void conc_body() {
   for (size_t t = 0; t < res.size(); t++) for (auto& r : res[t]) {
     vsched::log_event("res", (long long)t, r.err ? -1 : (long long)(hi - r.a));
     if (r.err) {
-      if (r.size <= cap / 4 && r.size + g_align <= cap / 4) vsched::fail("a small reservation reported stack overflow although space was left");
+      // an overflow report is wrong only if ALL requests of the scenario together would have fitted
+      size_t demand = pstack_locked;
+      bool huge = false;
+      for (auto& sc : g_scripts) for (size_t q : sc) { if (q > cap) huge = true; else demand += q + g_align - 1; }
+      if (!huge && r.size <= cap && demand <= cap) vsched::fail("a reservation reported stack overflow although all requests together fit");
       continue;
     }
     if (r.size == 0) continue;
